@@ -405,6 +405,9 @@ def structure_programs(tier, rnd):
             [E(["in_list", a, ["l"]])], [E(["in_list", a, ["m"]])], [E(["notin_list", a, ["m"]])],
             [E(["==", ["sum", ["l"]], lit(17)])], [E(["<", ["sum", ["l"]], a])],
             [E(["==", ["size", ["l"]], lit(3)])],
+            [E(["==", F("l", 0), lit(2)]), E(["==", F("l", 1), lit(9)]), E(["in", a, [["rng", F("l", 0), F("l", 1)]]])],     # bounds are list elements; merges rand sets
+            [E(["in", a, [["rng", ["+", F("l", 0), lit(1)], ["+", F("l", 2), lit(1)]], F("l", 1)]]), E(["<", F("l", 0), F("l", 2)])],
+            [E(["<", F("l", 0), lit(5)]), E([">", F("l", 2), lit(7)]), E(["==", ["+", F("l", 0), F("l", 2)], F("l", 1)])],
         ]
         for st in sts:
             pr = one_class(lf, st)
@@ -804,4 +807,167 @@ def c05_programs(tier, sd):
         out.append({"tag": "soft_seeded", "desc": "seeded soft program #%d" % i, "prog": pr, "world": [["top", "obj", "Top"]],
                     "ops": [["set", ["top", "n"], rnd.randint(0, 2)], ["randomize", ["top"]], ["randomize_with", ["top"], il], ["randomize", ["top"]]],
                     "soft_order_fixed": True})
+    return out
+
+
+# ------------------------------------------------------------------------------------------ C06 inline / dynamic
+def c06_programs(tier, sd):
+    rnd = random.Random(sd)
+    out = []
+    a, b, c = F("a"), F("b"), F("c")
+    D = {"name": "D", "fields": [fld("a", ("u", 8)), fld("b", ("u", 8)), fld("c", ("s", 8)), fld("n", ("u", 8), False)],
+         "blocks": [["cb0", "c", [E(["!=", a, b]), E(["<", c, lit(100)])]],
+                    ["d0", "dyn", [E(["<", a, lit(4)])]], ["d1", "dyn", [E([">", a, lit(250)])]],
+                    ["d2", "dyn", [E(["==", b, ["+", a, F("n")]]), E([">", c, lit(0)])]],
+                    ["d3", "dyn", [E(["<", b, lit(50)]), ["soft", ["==", b, lit(7)]], ["if", [[[">", c, lit(0)], [E(["==", a, lit(9)])]]], None]]]]}
+    H = {"name": "H", "fields": [["l", "list", ["obj", "D"], 3, True, False], fld("k", ("u", 8))],
+         "blocks": [["hb0", "c", [["foreach", ["l"], "i", [E(["!=", ["it", "i", "a"], F("k")])]]]]]}
+    pr = {"enums": {}, "classes": [D, H]}
+    dyn = lambda n: ["dyn", n]
+    inline_sets = [
+        [], [E(["==", a, lit(77)])], [E(["<", a, b]), E([">", c, lit(-5)])], [E(dyn("d0"))], [E(dyn("d1"))], [E(dyn("d0")), E(dyn("d2"))],
+        [E(["&", dyn("d0"), dyn("d2")])], [E(["|", dyn("d0"), dyn("d1")])], [E(["not", dyn("d0")])], [E(["&", ["not", dyn("d0")], ["not", dyn("d1")]])],
+        [E(["|", ["&", dyn("d0"), dyn("d2")], dyn("d1")])], [E(["&", dyn("d0"), ["==", b, lit(200)]])], [E(["|", dyn("d1"), ["<", b, lit(3)]])],
+        [E(["&", dyn("d0"), ["not", dyn("d2")]])], [E(dyn("d3"))], [E(["not", dyn("d3")])], [E(["&", dyn("d3"), [">", a, lit(3)]])],
+        [["if", [[["<", b, lit(128)], [E(dyn("d0"))]]], [E(dyn("d1"))]]], [["implies", [">", c, lit(10)], [E(dyn("d2"))]]],
+        [E(dyn("d0")), E(dyn("d1"))],                       # unsatisfiable
+    ]
+    # populations: target created first / last / in the middle; other instances hold values falsifying the dynamic blocks
+    pops = [(["top"], []), (["top", "o2"], []), (["o2", "top"], []), (["o2", "top", "o3"], []), (["top"], ["o2"]), (["o2", "top"], ["o3"])]
+    spoil = lambda nm: [["set", [nm, "a"], 100], ["set", [nm, "b"], 100], ["set", [nm, "c"], -50], ["set", [nm, "n"], 1]]
+    for pre, post in pops:
+        sets = inline_sets if tier == "thorough" or len(pre) + len(post) <= 2 else inline_sets[::2]
+        for il in sets:
+            world = [[nm, "obj", "D"] for nm in pre]
+            ops = []
+            for nm in pre:
+                if nm != "top":
+                    ops += spoil(nm)
+            ops += [["set", ["top", "n"], 1]]
+            for nm in post:
+                ops += [["new", [nm, "obj", "D"]]] + spoil(nm)
+            ops += [["randomize", ["top"]], ["randomize_with", ["top"], il], ["randomize", ["top"]]]
+            for nm in pre + post:
+                if nm != "top":
+                    ops += [["randomize_with", [nm], [E(dyn("d0"))]]]
+                    break
+            ops += [["randomize_with", ["top"], il], ["vsc_randomize", [["top"]]]]
+            out.append({"tag": "dyn", "desc": "instances %s+%s inline %s" % (pre, post, il), "prog": pr, "world": world, "ops": ops})
+    # dynamic constraints referenced through list elements
+    for il in ([E(["dynp", ["l", 1], "d0"])], [E(["dynp", ["l", 0], "d1"]), E(["dynp", ["l", 2], "d0"])],
+               [E(["|", ["dynp", ["l", 1], "d0"], ["dynp", ["l", 1], "d1"]])], [E(["not", ["dynp", ["l", 2], "d0"]])],
+               [["foreach", ["l"], "i", [E(["<", ["it", "i", "b"], lit(9)])]], E(["dynp", ["l", 0], "d2"])]):
+        out.append({"tag": "dyn_list", "desc": "dynamic through list element %s" % (il,), "prog": pr, "world": [["h", "obj", "H"], ["x", "obj", "D"]],
+                    "ops": spoil("x") + [["set", ["h", "l", 0, "n"], 2], ["randomize", ["h"]], ["randomize_with", ["h"], il], ["randomize", ["h"]],
+                                         ["randomize_with", ["h"], il]]})
+    # a failing inline call must leave no per-call rewrite behind (foreach expansion): grow the list, call again
+    for fail in ([E(["==", F("k"), lit(1)]), E(["==", F("k"), lit(2)])], [E(["dynp", ["l", 0], "d0"]), E(["dynp", ["l", 0], "d1"])]):
+        out.append({"tag": "inline_fail", "desc": "failing randomize_with %s, list grows, call again" % (fail,), "prog": pr,
+                    "world": [["h", "obj", "H"]],
+                    "ops": [["randomize", ["h"]], ["randomize_with", ["h"], fail], ["list_append", ["h", "l"], 0], ["randomize", ["h"]],
+                            ["randomize_with", ["h"], fail], ["list_append", ["h", "l"], 0], ["randomize_with", ["h"], [E(["<", F("k"), lit(9)])]], ["randomize", ["h"]]]})
+    # inline-only sequences: leak between calls
+    for i in range(30 if tier == "quick" else 300):
+        ops = [["set", ["top", "n"], rnd.randint(0, 3)]]
+        for _ in range(rnd.randint(2, 4)):
+            r = rnd.random()
+            if r < 0.3:
+                ops.append(["randomize", ["top"]])
+            elif r < 0.9:
+                ops.append(["randomize_with", ["top"], rnd.choice(inline_sets)])
+            else:
+                ops.append(["vsc_randomize_with", [["top"]], [E(["<", F("top", "a"), lit(rnd.randint(1, 255))])]])
+        ops.append(["randomize", ["top"]])
+        out.append({"tag": "inline_seq", "desc": "seeded inline sequence #%d" % i, "prog": pr, "world": [["o2", "obj", "D"], ["top", "obj", "D"]],
+                    "ops": spoil("o2") + ops})
+    return out
+
+
+# ------------------------------------------------------------------------------------------ C07 constraint_mode / hierarchy
+def c07_programs(tier, sd):
+    rnd = random.Random(sd)
+    out = []
+    a, b, c = F("a"), F("b"), F("c")
+    Base = {"name": "Base", "fields": [fld("a", ("u", 8)), fld("b", ("u", 8)), fld("c", ("s", 8))],
+            "blocks": [["ca", "c", [E(["<", a, lit(10)])]], ["cb", "c", [E([">", b, lit(5)]), E(["<", b, lit(200)])]], ["cz", "c", [E(["!=", c, lit(0)])]]]}
+    Mid = {"name": "Mid", "base": "Base", "fields": [fld("d", ("u", 8))],
+           "blocks": [["ca", "c", [E([">", a, lit(100)])]], ["cd", "c", [E(["==", F("d"), ["+", a, lit(1)]])]]]}
+    Leaf = {"name": "Leaf", "base": "Mid", "fields": [],
+            "blocks": [["cb", "c", [E(["==", b, lit(3)])]], ["ca", "c", [E(["in", a, [["rng", lit(20), lit(30)]]])]]]}
+    Hold = {"name": "Hold", "fields": [["s1", "obj", "Leaf", True], ["s2", "obj", "Leaf", True], ["l", "list", ["obj", "Mid"], 2, True, False], fld("k", ("u", 8))],
+            "blocks": [["hk", "c", [E(["<", F("k"), F("s1", "a")])]]]}
+    pr = {"enums": {}, "classes": [Base, Mid, Leaf, Hold]}
+    blocks = {"Base": ["ca", "cb", "cz"], "Mid": ["ca", "cb", "cz", "cd"], "Leaf": ["ca", "cb", "cz", "cd"]}
+    # single instances of each class: every single toggle, then toggle sequences
+    for cls in ("Base", "Mid", "Leaf"):
+        for bn in blocks[cls]:
+            out.append({"tag": "cmode", "desc": "%s toggle %s off/on" % (cls, bn), "prog": pr, "world": [["top", "obj", cls]],
+                        "ops": [["randomize", ["top"]], ["cmode", ["top"], bn, False], ["randomize", ["top"]], ["randomize", ["top"]],
+                                ["randomize_with", ["top"], [E(["<", c, lit(50)])]], ["cmode", ["top"], bn, True], ["randomize", ["top"]], ["vsc_randomize", [["top"]]]]})
+    # co-existing instances: toggling one never affects the others (created before and after the toggle)
+    for cls in ("Mid", "Leaf"):
+        for bn in blocks[cls][:2] + blocks[cls][3:]:
+            out.append({"tag": "cmode_instances", "desc": "%s instances, toggle %s on one" % (cls, bn), "prog": pr,
+                        "world": [["o1", "obj", cls], ["top", "obj", cls]],
+                        "ops": [["cmode", ["top"], bn, False], ["new", ["o3", "obj", cls]], ["randomize", ["top"]], ["randomize", ["o1"]], ["randomize", ["o3"]],
+                                ["cmode", ["o3"], bn, False], ["cmode", ["top"], bn, True], ["new", ["o4", "obj", cls]],
+                                ["randomize", ["top"]], ["randomize", ["o3"]], ["randomize", ["o4"]], ["randomize", ["o1"]]]})
+    # nested and list-held instances
+    paths = [["h", "s1"], ["h", "s2"], ["h", "l", 0], ["h", "l", 1]]
+    for p in paths:
+        for bn in ("ca", "cb", "cd"):
+            out.append({"tag": "cmode_nested", "desc": "toggle %s of %s" % (bn, p), "prog": pr, "world": [["h", "obj", "Hold"], ["h2", "obj", "Hold"]],
+                        "ops": [["randomize", ["h"]], ["cmode", p, bn, False], ["randomize", ["h"]], ["randomize", ["h2"]],
+                                ["cmode", ["h"], "hk", False], ["randomize", ["h"]], ["cmode", p, bn, True], ["randomize", ["h"]]]})
+    for i in range(30 if tier == "quick" else 300):
+        ops = []
+        for _ in range(rnd.randint(3, 7)):
+            if rnd.random() < 0.55:
+                p = rnd.choice(paths + [["h"]])
+                bn = "hk" if p == ["h"] else rnd.choice(["ca", "cb", "cz", "cd"])
+                ops.append(["cmode", p, bn, rnd.random() < 0.4])
+            else:
+                ops.append(["randomize", [rnd.choice(["h", "h2"])]])
+        ops.append(["randomize", ["h"]])
+        out.append({"tag": "cmode_seeded", "desc": "seeded toggle history #%d" % i, "prog": pr, "world": [["h", "obj", "Hold"], ["h2", "obj", "Hold"]], "ops": ops})
+    return out
+
+
+# ------------------------------------------------------------------------------------------ C08 object hierarchy
+def c08_programs(tier, sd):
+    rnd = random.Random(sd)
+    out = []
+    Leaf = {"name": "Leaf", "fields": [fld("p", ("u", 8)), fld("q", ("s", 8))], "blocks": [["lb", "c", [E(["<", F("p"), lit(200)]), E(["!=", F("q"), lit(0)])]]]}
+    Sub = {"name": "Sub", "fields": [fld("x", ("u", 8)), fld("y", ("u", 8)), fld("k", ("u", 4), False), ["inner", "obj", "Leaf", True]],
+           "blocks": [["sb", "c", [E(["<", F("x"), lit(100)]), E(["==", F("y"), ["+", F("inner", "p"), F("k")]])]]]}
+    x1, x2 = F("s1", "x"), F("s2", "x")
+    cross_sets = [
+        [E(["<", x1, x2])],
+        [E(["==", F("s1", "inner", "p"), F("s2", "inner", "q")])],
+        [E(["<", x1, x2]), E(["!=", F("s1", "inner", "p"), F("s2", "inner", "p")]), E(["==", F("a"), F("s2", "y")])],
+        [["foreach", ["l"], "i", [E(["<", ["it", "i", "x"], lit(50)])]]],
+        [["foreach", ["l"], "i", [E(["!=", ["it", "i", "inner", "p"], ["it", "i", "x"]]), E([">", ["it", "i", "y"], ["idx", "i"]])]]],
+        [E(["==", F("l", 0, "x"), F("l", 2, "y")]), E(["<", F("l", 1, "inner", "q"), lit(-3)])],
+        [["foreach", ["l"], "i", [["if", [[[">", ["idx", "i"], lit(0)], [E([">", ["it", "i", "x"], F("l", ["idx", "i", -1], "x")])]]], None]]]],
+        [["unique", [x1, x2, F("l", 0, "x"), F("l", 1, "x")]]],
+        [E(["in", F("a"), [x1, x2, ["rng", F("l", 0, "inner", "p"), F("l", 1, "inner", "p")]]])],
+    ]
+    for r1, r2, rl in itertools.product((True, False), (True, False), (True, False)):
+        if tier == "quick" and (r1, r2, rl) in ((False, False, True), (False, True, False)):
+            continue
+        for cs in cross_sets:
+            Top = {"name": "Top", "fields": [fld("a", ("u", 8)), ["s1", "obj", "Sub", r1], ["s2", "obj", "Sub", r2], ["l", "list", ["obj", "Sub"], 3, rl, False]],
+                   "blocks": [["tb", "c", cs]]}
+            pr = {"enums": {}, "classes": [Leaf, Sub, Top]}
+            init = [["set", ["top", "s1", "k"], 1], ["set", ["top", "s2", "k"], 2], ["set", ["top", "l", 0, "k"], 3], ["set", ["top", "l", 2, "k"], 5],
+                    ["set", ["top", "s1", "x"], 10], ["set", ["top", "s2", "x"], 60], ["set", ["top", "s1", "inner", "p"], 7], ["set", ["top", "s2", "inner", "q"], 7],
+                    ["set", ["top", "s2", "inner", "p"], 8], ["set", ["top", "s2", "y"], 10], ["set", ["top", "s1", "y"], 8],
+                    ["set", ["top", "l", 0, "x"], 5], ["set", ["top", "l", 1, "x"], 6], ["set", ["top", "l", 2, "x"], 7], ["set", ["top", "l", 2, "y"], 5],
+                    ["set", ["top", "l", 0, "inner", "p"], 3], ["set", ["top", "l", 1, "inner", "p"], 9], ["set", ["top", "l", 1, "inner", "q"], -9],
+                    ["set", ["top", "l", 0, "y"], 6], ["set", ["top", "l", 1, "y"], 7], ["set", ["top", "l", 2, "inner", "p"], 0], ["set", ["top", "l", 2, "inner", "q"], 1],
+                    ["set", ["top", "l", 0, "inner", "q"], 1], ["set", ["top", "s1", "inner", "q"], 1]]
+            ops = init + [["randomize", ["top"]], ["randomize_with", ["top"], [E([">", F("s2", "inner", "p"), F("l", 1, "x")])]],
+                          ["vsc_randomize", [["top", "s1"]]], ["vsc_randomize", [["top", "l", 1]]], ["randomize", ["top"]]]
+            out.append({"tag": "tree", "desc": "s1 rand=%s s2 rand=%s list rand=%s constraints %s" % (r1, r2, rl, cs), "prog": pr,
+                        "world": [["top", "obj", "Top"], ["other", "obj", "Top"]], "ops": ops})
     return out
